@@ -387,7 +387,7 @@ def oracle_lifecycle(case):
 @st.composite
 def scheduled_cases(draw):
     k = draw(st.integers(2, 4))
-    reqs = [draw(st.sampled_from(["echo", "echo", "notify", "batch", "invalid", "boom"])) for _ in range(k)]
+    reqs = [draw(st.sampled_from(["echo", "echo", "echo1", "echo1", "notify", "batch", "invalid", "boom"])) for _ in range(k)]
     kind = draw(st.sampled_from(["random", "random", "preempt"]))
     if kind == "random":
         spec = ("random", draw(st.integers(0, 2 ** 32)), draw(st.sampled_from([0.7, 0.9, 0.97])))
@@ -397,6 +397,8 @@ def scheduled_cases(draw):
 
 
 def request_body(kind, tok):
+    if kind == "echo1":
+        return json.dumps({"id": tok, "method": "echo", "params": [tok]}), [tok], []
     if kind == "echo":
         return json.dumps({"jsonrpc": "2.0", "id": tok, "method": "echo", "params": [tok]}), [tok], []
     if kind == "notify":
@@ -412,6 +414,49 @@ def request_body(kind, tok):
 
 def oracle_scheduled(case):
     from vlib import detsched as D
+    return scheduled_run(case, D.make_chooser(case["sched"]))
+
+
+SCHED_WORKLOADS = [
+    (["echo1", "echo1"], 2), (["echo1", "echo"], 2), (["echo", "notify", "echo1"], 2), (["boom", "echo1", "batch"], 3), (["invalid", "echo1"], 1),
+    (["echo", "echo"], 1),
+]
+
+
+def sched_sweep_cases(tier):
+    for i in range(len(SCHED_WORKLOADS)):
+        yield {"workload": i, "occurrences": 1 if tier == "quick" else 2}
+
+
+def oracle_sched_sweep(case):
+    from vlib import detsched as D
+
+    reqs, pool = SCHED_WORKLOADS[case["workload"]]
+    base = {"requests": reqs, "pool": pool, "min": 0, "lines": True}
+    infos = []
+
+    def run_once(chooser):
+        try:
+            return scheduled_run(base, chooser)
+        except Exception as ex:
+            return ex
+
+    n = 0
+    for pre, verdict, ch in D.single_preemption_sweep(run_once, max_points=2500, occurrences=case["occurrences"], threads=pool + 1):
+        n += 1
+        if isinstance(verdict, Exception):
+            if isinstance(verdict, Violation):
+                verdict.replay_case = dict(base, sched=("preempt", [list(pre[:2])] if pre else [], 0))
+                verdict.replay_sub = "scheduled"
+            raise verdict
+        infos.append(Info(nt=pre is not None, classes=["scheduled-sweep", "workload:%d" % case["workload"]], key=(case["workload"], pre[:2] if pre else None),
+                          sample={"requests": reqs, "pool": pool, "preempt-at": list(pre) if pre else None}))
+    infos.append(Info(classes=["scheduled-sweep-complete"], key=("sweep", case["workload"], case["occurrences"]), sample={"workload": case["workload"], "schedules": n}))
+    return Info(multi=infos)
+
+
+def scheduled_run(case, chooser):
+    from vlib import detsched as D
     from vlib import poolprog
     import jsonrpclib.SimpleJSONRPCServer as S
 
@@ -421,7 +466,7 @@ def oracle_scheduled(case):
         disable_nagle_algorithm = False
 
     files = [S.__file__, tp.__file__] if case["lines"] else []
-    sched = D.Scheduler(D.make_chooser(case["sched"]), trace_files=files, max_steps=400000)
+    sched = D.Scheduler(chooser, trace_files=files, max_steps=400000)
     res = {}
 
     def main():
@@ -481,8 +526,12 @@ def oracle_scheduled(case):
                 fail("C12/crosstalk", "notification connection %d received a body %r" % (i, body[:100]))
             continue
         reply = json.loads(body.decode("utf-8"))
-        if kind == "echo" and (reply.get("id") != tok or reply.get("result") != tok):
+        if kind in ("echo", "echo1") and (reply.get("id") != tok or reply.get("result") != tok):
             fail("C12/crosstalk", "connection %d sent %r and received %r" % (i, tok, reply))
+        if kind == "echo1" and ("jsonrpc" in reply or "error" not in reply):
+            fail("C12/crosstalk-form", "connection %d sent a 1.0 request and received a reply in another form: %r (its form depends on the other connections)" % (i, reply))
+        if kind == "echo" and ("jsonrpc" not in reply):
+            fail("C12/crosstalk-form", "connection %d sent a 2.0 request and received %r" % (i, reply))
         if kind == "batch" and [(r.get("id"), r.get("result")) for r in reply] != [(tok + "a", tok + "a"), (tok + "b", tok + "b")]:
             fail("C12/crosstalk", "batch connection %d received %r" % (i, reply))
         if kind == "invalid" and reply.get("error", {}).get("code") != -32700:
@@ -513,6 +562,9 @@ SUBS = [
         budget={"quick": 240, "thorough": 4000}, shards={"quick": 8, "thorough": 16},
         time_cap={"quick": 100, "thorough": 1500}, shrink=False,
         what="lifecycle histories incl. close-without-serve, in-flight requests, bind failure"),
+    Sub("scheduled-sweep", oracle_sched_sweep, enumerate=sched_sweep_cases, shards={"quick": 6, "thorough": 6},
+        time_cap={"quick": 100, "thorough": 1500},
+        what="pooled server handlers: every single preemption at a distinct source line of 6 small request sets"),
     Sub("scheduled", oracle_scheduled, strategy=lambda tier: scheduled_cases(),
         budget={"quick": 4000, "thorough": 60000}, shards={"quick": 8, "thorough": 16},
         time_cap={"quick": 100, "thorough": 1500},
